@@ -1,2 +1,59 @@
-(* C06 — placeholder *)
-From HC Require Import Base.
+(* C06 — storage files follow the JavaScript on-disk layout (pinned statements; proofs in OplogFacts.v,
+   BitfieldFacts.v). What is proved: every record the crate writes decodes back to itself under the
+   layout rules — header (either slot), oplog entries with every combination of the flag bits 2/4/8,
+   the CRC frame with its header bit and partial bit, 40-byte tree nodes — and, conversely, a sequence
+   of well-formed frames carrying the current header bit is scanned completely, stops at the first
+   frame that is missing, torn or carries the other bit, and trailing partial entries are dropped;
+   the fuel Oplog::open uses always suffices (termination). Partial: the composition "reader of the four
+   files = API state for every reachable state" is checked by the independent reader of tools/c06.py
+   at every operation boundary, not proved; user_data / reorgs are outside the model. *)
+From HC Require Import Base Codec CodecFacts Crypto Storage Bitfield Oplog OplogFacts.
+From HC Require Merkle.
+
+Theorem C06_header_roundtrip : forall h r, header_ok h = true -> dec_header (enc_header h ++ r) = Ok (h, r).
+Proof. exact dec_enc_header. Qed.
+
+Theorem C06_entry_roundtrip : forall e b r,
+  entry_ok e = true -> enc_entry e = Ok b -> dec_entry (b ++ r) = Ok (e, r).
+Proof. exact dec_enc_entry. Qed.
+
+Theorem C06_entry_encodes : forall e, entry_ok e = true -> exists b, enc_entry e = Ok b /\ bytes_ok b = true.
+Proof. exact enc_entry_ok. Qed.
+
+Theorem C06_frame_roundtrip : forall cr bit partial payload fr r,
+  crc_ok cr -> payload <> [] -> frame cr bit partial payload = Ok fr ->
+  validate_leader cr (fr ++ r) = Some (mkLeader bit partial (len payload) (payload ++ r)).
+Proof. exact validate_frame. Qed.
+
+Theorem C06_node_roundtrip : forall n,
+  Nat.eqb (length (n_hash n)) 32 = true -> n_length n < 2 ^ 64 ->
+  Merkle.node_from_bytes (n_index n) (Merkle.node_to_bytes n) = n.
+Proof. exact node_bytes_roundtrip. Qed.
+
+(* the converse direction: a JS-valid sequence of entries is read back completely, whatever follows *)
+Theorem C06_scan_reads_js_entries : forall cr bit l body rest,
+  crc_ok cr -> forallb (fun x => entry_ok (fst x)) l = true ->
+  frames cr bit l = Ok body -> no_frame_here cr bit rest ->
+  scan_entries cr (S (length (body ++ rest))) bit (body ++ rest) [] = Ok (scanned_of l).
+Proof. exact scan_entries_open_fuel. Qed.
+
+(* entries flagged as part of an unfinished atomic batch are dropped, and only those *)
+Theorem C06_trailing_partials_dropped : forall l, exists removed,
+  l = rev (drop_trailing_partials (rev l)) ++ removed /\
+  Forall (fun x => is_partial x = true) removed /\
+  (forall k x, rev (drop_trailing_partials (rev l)) = k ++ [x] -> is_partial x = false).
+Proof. exact drop_trailing_partials_spec. Qed.
+
+(* which header slot is current, and that a flush always writes the other one *)
+Theorem C06_slot_rule : forall bits, let '(slot, _, bits') := next_slot bits in
+  (slot = 0 <-> fst bits <> snd bits) /\ (Bool.eqb (fst bits') (snd bits') = true <-> slot = 0).
+Proof. exact slot_choice. Qed.
+
+Print Assumptions C06_header_roundtrip.
+Print Assumptions C06_entry_roundtrip.
+Print Assumptions C06_entry_encodes.
+Print Assumptions C06_frame_roundtrip.
+Print Assumptions C06_node_roundtrip.
+Print Assumptions C06_scan_reads_js_entries.
+Print Assumptions C06_trailing_partials_dropped.
+Print Assumptions C06_slot_rule.
